@@ -796,6 +796,11 @@ class ClientModel(Model):
             if 'Hostname' in opts:
                 self.labels.add('hostname-set')
 
+            for val in opts.values():
+                for v in (val if isinstance(val, list) else [val]):
+                    if isinstance(v, str) and '#' in v:
+                        self.labels.add('hash-in-value')
+
             return ('ok', opts)
         except Err as exc:
             return ('err', str(exc))
@@ -1571,14 +1576,15 @@ HOSTS = ['foo', 'bar', 'foo.example.com', 'db1', 'db2.internal', '10.0.0.5']
 HOST_PATS = ['*', 'foo', 'bar', 'foo*', '*.example.com', 'db?', 'db*',
              '*.internal', '10.0.0.?', 'f?o', 'nomatch', '*o*',
              'real.example.com', 'h-*', '*.example.*']
-USERS = ['alice', 'bob', 'deploy', 'root']
+# ('#' only starts a comment at the beginning of a word: misc.c argv_split)
+USERS = ['alice', 'bob', 'deploy', 'root', 'build#7']
 USER_PATS = ['*', 'alice', 'bob', 'a*', '?ob', 'deploy', '@LU@', 'nobody',
              'r*']
 TAG_PATS = ['prod', 'dev', 'p*', '*', 'd?v']
 BOOLS = ['yes', 'no', 'true', 'false', 'Yes', 'NO', 'True']
 
 FRAGS = ['id', '-', '.', 'key', '%h', '%n', '%p', '%r', '%u', '%L', '%l',
-         '%C', '%i', '%%', '%%', 'h', '${C18V}', '${C18W}', '/']
+         '%C', '%i', '%%', '%%', 'h', '${C18V}', '${C18W}', '/', '#', 'id#1']
 PROXY_FRAGS = ['%h', '%p', '%r', '%n', '%%', 'x', '-', ':']
 
 
@@ -1677,11 +1683,12 @@ def _value(draw, name: str, sshg: bool, canon_changes: bool,
         return [strip_n(_tokval(draw, sshg, rare_bad=not sshg))]
     if name == 'SetEnv':
         # one value per variable: ssh lets a later NAME= replace an earlier
-        pool = ['A=1', 'B=two', 'LANG=C', 'X=a=b', 'C=x y']
+        pool = ['A=1', 'B=two', 'LANG=C', 'X=a=b', 'C=x y', 'COL=#fff',
+                'T=a #b']
         return draw(st.lists(s(pool), min_size=1, max_size=3,
                              unique_by=lambda v: v.split('=')[0]))
     if name == 'SendEnv':
-        return draw(st.lists(s(['LANG', 'LC_*', 'A', 'B?', 'TERM']),
+        return draw(st.lists(s(['LANG', 'LC_*', 'A', 'B?', 'TERM', 'LC_#*']),
                              min_size=1, max_size=3))
     if name in ('UserKnownHostsFile', 'GlobalKnownHostsFile'):
         if none_ok and draw(st.integers(0, 9)) == 0:
@@ -2357,6 +2364,7 @@ FAMILIES = [
            budget={'quick': 2400, 'thorough': 40000},
            required={'all': ['contested-option', 'include-in-block',
                              'token-in-value', 'env-in-value',
+                             'hash-in-value',
                              'literal-percent', 'include-depth2',
                              'glob-multi', 'glob-0', 'match-negated',
                              'host-negated', 'match-multi', 'final-pass',
